@@ -4,10 +4,12 @@ from vlib import gen
 from props import factor_common as fc
 
 PID = "C05"
-GEN = ["primality"]
-LEAN = ["Ymq.Props.C05", "Ymq.Props.C05Sched"]
+GEN = ["primality", "sched"]
+LEAN = ["Ymq.Props.C05", "Ymq.Props.C05Sched", "Ymq.Props.C04Shape"]
 AUDIT = "Ymq.Audit.C05"
-THEOREMS = ['Ymq.C05.abort_never_wrong_product', 'Ymq.C05.abort_consistent', 'Ymq.C05.abort_consistent_of_input', 'Ymq.C05.abort_stops', 'Ymq.C05.abort_bounded', 'Ymq.C05.abort_before_start']
+THEOREMS = ['Ymq.C05.abort_never_wrong_product', 'Ymq.C05.abort_consistent', 'Ymq.C05.abort_consistent_of_input', 'Ymq.C05.abort_stops', 'Ymq.C05.abort_bounded', 'Ymq.C05.abort_before_start',
+            'Ymq.C04Shape.abort_bounded_shape', 'Ymq.C04Shape.source_shapes_ok', 'Ymq.C04Shape.source_mt_poll_first',
+            'Ymq.C04Shape.siqs_mt_abort_bounded', 'Ymq.C04Shape.mpqs_mt_abort_bounded', 'Ymq.C04Shape.siqs_st_abort_bounded', 'Ymq.C04Shape.mpqs_st_abort_bounded']
 PROFILES = ["release", "chk"]
 TIMEOUT = 120.0
 LAT_BOUND_MS = 15000
@@ -15,7 +17,11 @@ RULE = ("abort predicate flipping at seeded instants: by poll count (0,1,2,3,5,1
         "selectors auto/qs/mpqs/siqs/ecm/ecm128/pm1, single and multi-threaded, on 60-150 bit inputs whose run is long enough for "
         "the flip to land before/between/inside stages; checked: returns, no crash, product = n, latency after the first `true` poll "
         f"<= {LAT_BOUND_MS} ms; non-trivial = the predicate was polled at least once; distinct by request line")
-MODELLED = ["the unit-start polls `done || abort` of the multi-threaded sieves / ECM as `Act.poll` of the protocol model "
+MODELLED = ["where siqs() and mpqs() poll the abort predicate inside a work unit is read from the source on every run (translate/sched.py -> "
+            "Ymq/Gen/SchedShape.lean); abort_bounded_shape: the predicate may flip after ANY schedule prefix, from then on at most two work "
+            "units' worth of actions per worker happen, however many units are left; source_shapes_ok / source_mt_poll_first are the "
+            "obligations on the generated data (a poll outside the polynomial loop of every unit, first in the thread-pool branches)",
+            "the unit-start polls `done || abort` of the multi-threaded sieves / ECM as `Act.poll` of the protocol model "
             "(Ymq/Model/Sched.lean): abort_bounded = after the predicate answers true each worker performs at most the rest of its "
             "current work unit, for every interleaving", "the abort poll of factor_impl (lib.rs:431) and the aborted-sieve path (empty divisor list => n pushed unsplit) in "
             "Ymq/Model/Factor.lean; the abort predicate is an arbitrary stateful oracle, so every flip instant is covered by the theorem"]
